@@ -200,7 +200,8 @@ def check_weights(ctx, ck):
             e0 = [e_ for e_ in lents if doubled(e_.conds)][0]
             pulse_txt = norm(e0.payload.args[1]) if e0.payload is not None and len(e0.payload.args) > 1 else '?'
             r0 = [e_ for e_ in rents if doubled(e_.conds)][0]
-            okp = lp == pulse_txt and rp == 'self.pulses[%s.idx]' % r0.source
+            K_ = lambda t_: _re.sub(r'_[km]\d+', '_k', t_)      # (loop elements: the same loop, whatever its number)
+            okp = K_(lp) == K_(pulse_txt) and K_(rp) == K_('self.pulses[%s.idx]' % r0.source)
             ck.ob('R-SIB.weight', 'grounded-guard-pulse', okp, where,
                   'load guard tests %s (loaded pulse %s); source guard tests %s (source %s)' % (lp, pulse_txt, rp, r0.source))
     # the payload is <load>.impedance(self.f, <pulse of that load>)
